@@ -273,7 +273,6 @@ impl SourceMap {
         }
     }
 
-    /// panics if `global_range` crosses a file barrier?
     pub(crate) fn resolve_range(&self, global_range: Range<usize>) -> (FileId, Range<usize>) {
         // it is hard to imagine more than a couple hundred include statements,
         // and even that would be extremely rare, so I don't think it's really
@@ -285,7 +284,9 @@ impl SourceMap {
             .unwrap();
         let chunk_offset = global_range.start - chunk.start;
         let range_start = *local_offset + chunk_offset;
-        let len = global_range.end - global_range.start;
+        // a range that runs past this chunk (a node that contains an include
+        // statement) ends where the chunk ends: the rest of it is in other files
+        let len = global_range.end.min(chunk.end) - global_range.start;
         (*file, range_start..range_start + len)
     }
 }
